@@ -109,8 +109,20 @@ def dump(sql, dialect="ansi", metadata=None, silent=False, verbose=False, want_g
             out["msg"] = str(e)[:300]
         out["warnings"] = sorted("%s:%s" % (w.category.__name__, str(w.message)[:80]) for w in ws)
     ren = out.pop("_ren", {})
-    if ren or True:
-        out = _canon(out, ren)
+    out = _canon(out, ren)
+    if ren:
+        # the generated names of anonymous subqueries vary with the hash seed, and with them the order of anything sorted by
+        # name: after renaming, bring name-ordered lists into the order of the canonical names (edge ids follow that order)
+        import json as _json
+        for k in ("cyto_table", "cyto_column"):
+            if k in out:
+                ents = [dict(e, data=dict(e["data"], id="e") if "source" in e["data"] else e["data"]) for e in out[k]]
+                out[k] = sorted(ents, key=lambda e: _json.dumps(e, sort_keys=True))
+        for k in ("col_edges", "table_edges", "table_nodes"):
+            if k in out:
+                out[k] = sorted(out[k])
+        if "paths" in out:
+            out["paths"] = sorted(out["paths"], key=lambda p: _json.dumps(p, sort_keys=True))
     return out
 
 
